@@ -13,7 +13,7 @@ import pathlib
 import pickle
 
 from . import battery
-from .core import call
+from .core import call, scramble
 
 
 def _jsonable(x):
@@ -86,8 +86,13 @@ class Node:
 
     def do_triple(self, cmd):
         x = self.slots[cmd['slot']]
-        out = call(lambda: {'objects': list(x.objects), 'properties': list(x.properties),
-                            'bools': [[int(b) for b in r] for r in x.bools]})
+        def go():
+            b = x.bools
+            r = {'objects': list(x.objects), 'properties': list(x.properties),
+                 'bools': [[int(v) for v in row] for row in b]}
+            scramble(b)
+            return r
+        out = call(go)
         return {'ok': True, **out.value} if out.ok else _err(out)
 
     @staticmethod
@@ -102,8 +107,10 @@ class Node:
         if not out.ok:
             return _err(out)
         d = out.value
-        return {'ok': True, 'dict': _jsonable(d), 'keys': list(d),
-                'types': {k: type(v).__name__ for k, v in d.items()}}
+        reply = {'ok': True, 'dict': _jsonable(d), 'keys': list(d),
+                 'types': {k: type(v).__name__ for k, v in d.items()}}
+        scramble(d)   # the caller owns the returned dict and may edit it in place
+        return reply
 
     def do_fromdict(self, cmd):
         if cmd.get('as_lists'):   # what json.load would hand over
